@@ -30,7 +30,8 @@ import types
 from ..translate import c14 as tr
 
 PROPERTY = "C14"
-CASE_TIMEOUT = 30  # s of wall clock per case in pool workers (runner watchdog): a case that spins forever is a verdict, not exit 2
+CASE_TIMEOUT = 120  # s of WALL clock per case in pool workers (runner watchdog, second line of defence: every call into the code under test is
+# bounded by the CPU-time guard below).  Was 30: a 430-event generate_events history (5 s of CPU) ran into it on a machine with load 65.
 THEOREM_MODULE = "NemoVerif.Theorems.C14"
 RULE = ("program: 1-2 dialog flows (distinct start intents) + 0-2 subflows over user/bot/execute/set/if-else/while/"
         "break/continue/do, nesting <= 4, plus dedicated nested-`do` chain programs (depth 2-3, inner call in last position) and computation-loop programs (counters/accumulators, iterations without a blocking statement), if/if-else trees inside counter loops at every nesting depth (both condition values while the loop runs), context-dependent subflows called several times; condensed re-entry histories (the start intent right after the flow completed or was aborted); history: produced by walking the program with the reference interpreter, "
@@ -561,6 +562,213 @@ def g_subcall_program(rng, tier):
         mains.append({"name": "f1", "sub": False, "body": other})
     main.append({"b": nm.bot()})
     return [{"name": "f0", "sub": False, "body": main}] + mains + subs
+
+
+def g_doloop_program(rng, tier):
+    """The SAME `do` executed again within ONE event: a `do <blocking subflow>` inside a `while` loop where between the
+    subflow's completion and the next execution of the same `do` only non-blocking statements run (`set`, `if`, the loop
+    jump, `continue`), so that the new instance is created while the completed instance of the previous iteration is still
+    in the state.  Shapes: increment first / last; the `do` under an `if` on the counter (skipped in some iterations);
+    reached again through `continue`; in an inner loop of an outer loop; the loop inside a subflow (the caller is itself
+    a callee); the called subflow ends with a nested `do` / has its own `do` loop; two different subflows alternating;
+    two calls of the same subflow in one event at DIFFERENT positions (`do s / do s`, `do s / set / do s`, one call per
+    branch of an if/else); a second dialog flow that calls the same subflow while the first one waits inside it.  The
+    callees block on bot / user / execute statements, end with a step or with a trailing `set`; a statement follows the
+    loop (spoken too early if the caller runs ahead).  Control shapes (a step between two calls) are kept at ~15 %."""
+    nm = Names()
+    lit = lambda n: {"lit": {"i": n}}  # noqa: E731
+    var = lambda v: {"var": v}  # noqa: E731
+
+    def blocking(allow_user=True):
+        r = rng.random()
+        if r < 0.45:
+            return {"b": nm.bot()}
+        if r < 0.8 and allow_user:
+            return {"u": nm.user()}
+        return {"x": [nm.act(), [], rng.choice([None, "r"])]}
+
+    def nonblocking(c=None):
+        r = rng.random()
+        v = rng.choice(VARS)
+        if r < 0.5 or c is None:
+            return {"set": [v, {"bin": ["add", var(v), lit(1)]}]}
+        if r < 0.8:
+            return {"if": [{"bin": [rng.choice(["eq", "ge"]), var(c), lit(rng.choice([0, 1]))]}, [{"set": [v, var(c)]}], [] if rng.random() < 0.6 else [{"set": ["t", lit(1)]}]]}
+        return {"while": [{"bin": ["lt", lit(1), lit(0)]}, [{"b": nm.bot()}]]}
+
+    def leaf_body():
+        """a subflow that blocks: 1-2 step statements, optional sets before / between / after"""
+        body = []
+        if rng.random() < 0.25:
+            body.append(nonblocking())
+        body.append(blocking())
+        if rng.random() < 0.45:
+            body.append(blocking())
+        if rng.random() < 0.3:
+            body.append(nonblocking())
+        return body
+
+    def quick_body(c):
+        """a subflow that returns IMMEDIATELY in some (or all) executions: only assignments, or its step statements under a
+        condition on the caller's counter — the same `do` is then executed several times within one event, the earlier
+        executions having returned without leaving an instance behind"""
+        body = [nonblocking()]
+        if rng.random() < 0.65:
+            a = rng.choice([0, 1, 1, 2])
+            cond = {"bin": [rng.choice(["eq", "ge", "eq"]), var(c), lit(a)]}
+            then = [blocking()] + ([nonblocking()] if rng.random() < 0.4 else [])
+            body.append({"if": [cond, then, [] if rng.random() < 0.6 else [{"set": ["t", {"bin": ["add", var("t"), lit(2)]}]}]]})
+        if rng.random() < 0.3:
+            body.append({"set": ["t", {"bin": ["add", var("t"), var(c)]}]})
+        return body
+
+    subs = []
+    shape = rng.choice(["plain", "plain", "plain", "under_if", "continue", "inner_loop", "loop_in_sub", "nested_callee",
+                        "callee_loop", "alternate", "twice_seq", "twice_branch", "two_flows"])
+    control = rng.random() < 0.15
+    # 30 % of the loop shapes: the callee returns immediately in some executions (see quick_body)
+    quick = shape in ("plain", "under_if", "continue", "inner_loop", "alternate", "twice_branch", "twice_seq") and rng.random() < 0.3
+    subs.append({"name": "s0", "sub": True, "body": quick_body("j" if shape == "inner_loop" else ("x" if shape == "twice_seq" else "i")) if quick else leaf_body()})
+    k = 3 if quick else rng.choice([2, 2, 3])
+    inc = lambda c: {"set": [c, {"bin": ["add", var(c), lit(1)]}]}  # noqa: E731
+
+    def do_loop(c, callee, k, variant):
+        inc_first = rng.random() < 0.35
+        body = []
+        if rng.random() < 0.3:
+            body.append(nonblocking(c))
+        call = {"do": callee}
+        if variant == "under_if":
+            skip = rng.randrange(0, k + 1)
+            k = k + 1
+            call = {"if": [{"bin": ["ne", var(c), lit(skip + (1 if inc_first else 0))]}, [call], [] if rng.random() < 0.7 else [nonblocking()]]}
+        body.append(call)
+        if variant == "continue":
+            inc_first = True
+            body.append({"if": [{"bin": ["lt", var(c), lit(k if rng.random() < 0.6 else k - 1)]}, [{"continue": 1}], []]})
+            body.append(rng.choice([blocking(False), nonblocking()]))
+        elif variant == "alternate":
+            if rng.random() < 0.3:
+                body.append(nonblocking(c))
+            body.append({"do": "s1"})
+        if control:
+            body.append(blocking(False))
+        elif rng.random() < 0.4:
+            body.append(nonblocking(c))
+        body = [inc(c)] + body if inc_first else body + [inc(c)]
+        return [{"set": [c, lit(0)]}, {"while": [{"bin": ["lt", var(c), lit(k)]}, body]}]
+
+    init = [{"set": [a, lit(rng.choice([0, 0, 1]))]} for a in ["t"] + VARS]
+    main = [{"u": nm.user()}] + init
+    if rng.random() < 0.3:
+        main.append({"b": nm.bot()})
+    mains = []
+    if shape in ("plain", "under_if", "continue"):
+        main += do_loop("i", "s0", k, shape)
+    elif shape == "alternate":
+        subs.append({"name": "s1", "sub": True, "body": leaf_body()})
+        main += do_loop("i", "s0", k, shape)
+    elif shape == "inner_loop":
+        inner = do_loop("j", "s0", 2, "plain")
+        body = inner + ([nonblocking("i")] if rng.random() < 0.4 else []) + [inc("i")]
+        main += [{"set": ["i", lit(0)]}, {"while": [{"bin": ["lt", var("i"), lit(2)]}, body]}]
+    elif shape == "loop_in_sub":
+        # the caller of the loop's `do` is itself a subflow
+        subs.append({"name": "s1", "sub": True, "body": do_loop("j", "s0", k, "plain") + ([blocking()] if rng.random() < 0.5 else [])})
+        subs.reverse()
+        subs[0]["name"], subs[1]["name"] = "s0", "s1"
+        subs[0]["body"] = _rename_do(subs[0]["body"], {"s0": "s1"})
+        if rng.random() < 0.5:
+            main += [{"do": "s0"}]
+        else:
+            main += [{"set": ["i", lit(0)]}, {"while": [{"bin": ["lt", var("i"), lit(2)]}, [{"do": "s0"}, inc("i")]]}]
+    elif shape == "nested_callee":
+        # the called subflow ends with (or consists of) a nested call: two instances are created per iteration
+        subs.append({"name": "s1", "sub": True, "body": leaf_body()})
+        pre = [blocking()] if rng.random() < 0.5 else ([nonblocking()] if rng.random() < 0.5 else [])
+        post = [nonblocking()] if rng.random() < 0.4 else []
+        subs[0]["body"] = pre + [{"do": "s1"}] + post
+        main += do_loop("i", "s0", k, "plain")
+    elif shape == "callee_loop":
+        # the callee has its own `do` loop, and is itself called in a loop
+        subs.append({"name": "s1", "sub": True, "body": leaf_body()})
+        subs[0]["body"] = do_loop("j", "s1", 2, "plain")
+        main += do_loop("i", "s0", 2, "plain")
+    elif shape == "twice_seq":
+        mid = [nonblocking() for _ in range(rng.choice([0, 0, 1, 2]))]
+        main += [{"do": "s0"}] + mid + [{"do": "s0"}]
+        if rng.random() < 0.4:
+            main += [nonblocking(), {"do": "s0"}]
+    elif shape == "twice_branch":
+        main += [{"set": ["i", lit(0)]}, {"while": [{"bin": ["lt", var("i"), lit(k)]},
+                 [{"if": [{"bin": ["eq", var("i"), lit(rng.choice([0, 1]))]}, [{"do": "s0"}], [{"do": "s0"}]]}, inc("i")]]}]
+    else:   # two_flows: f1 calls s0 (same position in its own body) while f0 waits at a `user` statement inside s0
+        subs[0]["body"] = [{"b": nm.bot()}, {"u": nm.user()}] + ([{"b": nm.bot()}] if rng.random() < 0.5 else [])
+        main = [{"u": nm.user()}, {"do": "s0"}] if rng.random() < 0.5 else main + [{"do": "s0"}]
+        other = [{"u": nm.user()}, {"do": "s0"}]
+        if rng.random() < 0.5:
+            other.append({"b": nm.bot()})
+        mains.append({"name": "f1", "sub": False, "body": other})
+    main.append({"b": nm.bot()})           # the statement after the loop / the last call
+    if rng.random() < 0.3:
+        main.append(blocking())
+    return [{"name": "f0", "sub": False, "body": main}] + mains + subs
+
+
+def _rename_do(stmts, m):
+    out = []
+    for s in stmts:
+        if "do" in s:
+            out.append({"do": m.get(s["do"], s["do"])})
+        elif "if" in s:
+            out.append({"if": [s["if"][0], _rename_do(s["if"][1], m), _rename_do(s["if"][2], m)]})
+        elif "while" in s:
+            out.append({"while": [s["while"][0], _rename_do(s["while"][1], m)]})
+        else:
+            out.append(s)
+    return out
+
+
+def same_do_again_profile(flows):
+    """AST-level: does some `do` sit in a loop body (any depth), is the same subflow called at two places, and is some
+    called subflow free of unconditional step statements (it may return immediately)"""
+    t = set()
+    names = []
+
+    def walk(stmts, wd):
+        for s in stmts:
+            if "do" in s:
+                names.append(s["do"])
+                if wd:
+                    t.add("do-in-while:w%d" % min(wd, 3))
+            elif "if" in s:
+                walk(s["if"][1], wd)
+                walk(s["if"][2], wd)
+            elif "while" in s:
+                walk(s["while"][1], wd + 1)
+
+    for f in flows:
+        walk(f["body"], 0)
+    if len(names) != len(set(names)):
+        t.add("do:same-subflow-at-two-places")
+    in_loop = set()
+
+    def walk2(stmts, wd):
+        for s in stmts:
+            if "do" in s and wd:
+                in_loop.add(s["do"])
+            elif "if" in s:
+                walk2(s["if"][1], wd)
+                walk2(s["if"][2], wd)
+            elif "while" in s:
+                walk2(s["while"][1], wd + 1)
+
+    for f in flows:
+        walk2(f["body"], 0)
+    for f in flows:
+        if f["sub"] and f["name"] in in_loop and not any(("b" in x or "u" in x or "x" in x or "do" in x or "while" in x) for x in f["body"]):
+            t.add("do-in-while:callee-may-return-immediately")
+    return t
 
 
 def if_in_while_profile(flows):
@@ -1236,6 +1444,13 @@ def gen_cases(rng, tier):
         for mode in ("follow", "follow", "leave"):
             cases.append({"kind": "fn" if sub6.random() < 0.88 else "rt", "flows": flows, "history": g_history(sub6, flows, mode), "seed": sub6.randrange(1 << 30)})
         cases.append({"kind": "fn", "flows": flows, "history": g_reentry_history(sub6, flows), "seed": sub6.randrange(1 << 30)})
+    # the same `do` executed again within one event (blocking subflows called in loops with nothing blocking in between)
+    sub7 = random.Random(rng.randrange(1 << 30))
+    for _ in range(60 if tier == "quick" else 700):
+        flows = g_doloop_program(sub7, tier)
+        for mode in ("follow", "follow", "leave"):
+            cases.append({"kind": "fn" if sub7.random() < 0.88 else "rt", "flows": flows, "history": g_history(sub7, flows, mode), "seed": sub7.randrange(1 << 30)})
+        cases.append({"kind": "fn", "flows": flows, "history": g_reentry_history(sub7, flows), "seed": sub7.randrange(1 << 30)})
     return cases
 
 
@@ -1248,9 +1463,9 @@ def escalate(rng, focus, tier):
             cases.append({"kind": "fn", "flows": focus["flows"], "history": g_history(rng, focus["flows"], rng.choice(["follow", "leave", "leave"])), "seed": rng.randrange(1 << 30)})
     sub = random.Random(rng.randrange(1 << 30))
     n = 500 if tier == "quick" else 2000
-    for _ in range(n):
-        flows = g_program(sub, tier)
-        for mode in ("follow", "leave", "leave"):
+    for i in range(n):
+        flows = (g_program, g_program, g_doloop_program, g_subcall_program, g_chain_program)[i % 5](sub, tier)
+        for mode in ("follow", "leave", "leave") if i % 5 < 2 else ("follow", "follow", "leave"):
             cases.append({"kind": "fn", "flows": flows, "history": g_history(sub, flows, mode), "seed": sub.randrange(1 << 30)})
     return cases
 
@@ -1424,35 +1639,89 @@ def decide(history_real, cfgs, rails_config=None):
         return {"exc": type(e).__name__ + ":" + str(e)[:80]}
 
 
-def zombie_flags(history, cfgs_factory):
+def canon_state(st):
+    """the flow states of a real State up to the NAMES of the uids: [flow id, head, status, index of the FIRST flow state
+    whose uid equals `interrupted_by` (what the resume loop's lookup finds); -1 = None, -2 = no such flow state]"""
+    uids = [fs.uid for fs in st.flow_states]
+    out = []
+    for fs in st.flow_states:
+        by = -1 if fs.interrupted_by is None else (uids.index(fs.interrupted_by) if fs.interrupted_by in uids else -2)
+        out.append([fs.flow_id, fs.head, fs.status.name, by])
+    return out
+
+
+def _uid_watch(w, k, st):
+    """Recorded on every state the real compute_next_state returns: the uids of its flow states (the hypothesis
+    `UidsOK` of the Lean theorems: pairwise distinct), dangling `interrupted_by` references, and whether a COMPLETED and
+    a live instance of the same flow sit side by side (= the same subflow was called again within the event)."""
+    fl = _M.fl
+    w["states"] += 1
+    uids = [fs.uid for fs in st.flow_states]
+    w["max_flows"] = max(w["max_flows"], len(uids))
+    if len(set(uids)) != len(uids) and w["dup"] is None:
+        d = next(u for u in uids if uids.count(u) > 1)
+        w["dup"] = {"prefix": k, "uid": str(d)[:60], "flows": [[fs.flow_id, fs.status.name, fs.head] for fs in st.flow_states if fs.uid == d]}
+    done = {fs.flow_id for fs in st.flow_states if fs.status == fl.FlowStatus.COMPLETED}
+    live = {fs.flow_id for fs in st.flow_states if fs.status in (fl.FlowStatus.ACTIVE, fl.FlowStatus.INTERRUPTED)}
+    if done & live:
+        w["twin"] += 1
+    for fs in st.flow_states:
+        if fs.status == fl.FlowStatus.INTERRUPTED and fs.interrupted_by is not None and fs.interrupted_by not in uids and w["dangling"] is None:
+            w["dangling"] = {"prefix": k, "flow": fs.flow_id, "head": fs.head}
+
+
+def zombie_flags(history, cfgs_factory, uidw=None):
     """flags[k]: while replaying prefix k through the real compute_next_state some flow state was left ACTIVE
     with a negative head (= it ran to its end within its starting event). Structural signature of the open
     finding `flow-finished-on-start-event`, observed on the implementation's own state."""
     fl = _M.fl
+    if uidw is None:
+        uidw = {"states": 0, "max_flows": 0, "dup": None, "twin": 0, "dangling": None}
 
-    def walk(actual):
-        st = fl.State(context={}, flow_states=[], flow_configs=cfgs_factory(), rails_config=None)
-        out = []
-        z = False
-        for ev in actual:
-            try:
-                st = guarded(fl.compute_next_state, st, copy.deepcopy(to_real_event(ev)))
-                if ev == {"e": "bot", "i": "stop"}:
-                    st.flow_states = []
-            except (Exception, _Hang):  # noqa
-                out.extend([z] * (len(actual) - len(out)))
-                return out
-            z = z or any(fs.status == fl.FlowStatus.ACTIVE and isinstance(fs.head, int) and fs.head < 0 for fs in st.flow_states)
-            out.append(z)
-        return out
+    # One incremental walk: the actual history of prefix k (hide_prev_turn applied) extends that of prefix k-1 by one
+    # event except at a `hide` event, where the walk starts again on the shortened history (a walk per prefix made
+    # histories with hidden turns quadratic in compute_next_state calls).
+    w = {"st": None, "fed": [], "z": False, "dead": False, "canon": []}
 
-    if not any(ev["e"] == "hide" for ev in history):
-        return [False] + walk(history)
+    def restart():
+        w.update(st=fl.State(context={}, flow_states=[], flow_configs=cfgs_factory(), rails_config=None), fed=[], z=False, dead=False, canon=[])
+
+    def feed(ev):
+        w["fed"].append(ev)
+        if w["dead"]:
+            return
+        try:
+            st = guarded(fl.compute_next_state, w["st"], copy.deepcopy(to_real_event(ev)))
+            if ev == {"e": "bot", "i": "stop"}:
+                st.flow_states = []
+        except (Exception, _Hang):  # noqa
+            w["dead"] = True       # compute_next_state raised / did not return: no state from here on
+            w["canon"] = None
+            return
+        w["st"] = st
+        w["z"] = w["z"] or any(fs.status == fl.FlowStatus.ACTIVE and isinstance(fs.head, int) and fs.head < 0 for fs in st.flow_states)
+        _uid_watch(uidw, len(w["fed"]), st)
+        w["canon"] = canon_state(st)
+
+    restart()
     flags = [False]
+    states = [[]]   # states[k] = canonical state after prefix k (None where compute_next_state raised / did not return)
+    hidden = any(ev["e"] == "hide" for ev in history)
     for k in range(1, len(history) + 1):
-        a = cut_history(history[:k])
-        w = walk(a) if a else []
-        flags.append(bool(w and w[-1]) or flags[-1])
+        a = cut_history(history[:k]) if hidden else history[:k]
+        if a is None:
+            flags.append(flags[-1])
+            states.append(None)
+            continue
+        if len(a) == len(w["fed"]) + 1 and a[:-1] == w["fed"]:
+            feed(a[-1])
+        elif a != w["fed"]:
+            restart()
+            for ev in a:
+                feed(ev)
+        flags.append(bool(a and w["z"]) or flags[-1])
+        states.append([] if not a else (list(w["canon"]) if w["canon"] is not None else None))
+    uidw["states_canon"] = states
     return flags
 
 
@@ -1950,7 +2219,9 @@ def run_impl_fn(case):
             if not same_decision(d, used[k]):
                 fresh_diff.append([k, d, used[k]])
         obs["fresh_diff"] = fresh_diff
-        obs["zombie"] = zombie_flags(history, lambda: load_configs(src))
+        uidw = {"states": 0, "max_flows": 0, "dup": None, "twin": 0, "dangling": None}
+        obs["zombie"] = zombie_flags(history, lambda: load_configs(src), uidw)
+        obs["uids"] = uidw
         # shared element dicts after use: still the same model elements?
         mc2, _ = model_cfgs(used_cfgs)
         obs["cfgs_changed_by_use"] = (mc2 != mc) or (list(used_cfgs) != [f["name"] for f in case["flows"]])
@@ -2077,7 +2348,14 @@ def model_requests(case, obs):
         reqs.append({"m": "C14.follow", "id": mains[0]["name"], "prog": prog_for_model(mains[0]["body"]),
                      "lib": [{"name": f["name"], "prog": prog_for_model(f["body"])} for f in case["flows"] if f["sub"]],
                      "history": obs["history"]})
+    # the interpreter STATE after every prefix, up to uid renaming (programs with subflow calls: where uids matter)
+    if _has_do(case["flows"]) and (obs.get("uids") or {}).get("states_canon") is not None:
+        reqs.append({"m": "C14.states", "flows": obs["mcfgs"], "history": obs["history"]})
     return reqs
+
+
+def _has_do(flows):
+    return '"do"' in json.dumps(flows)
 
 
 def _norm_ctx(c):
@@ -2096,7 +2374,9 @@ def compare(case, obs, mouts):
     gens = mouts[1 + nf + ns:1 + nf + ns + ng]
     nsm = len(obs.get("slides_m", []))
     slides_m = mouts[1 + nf + ns + ng:1 + nf + ns + ng + nsm]
-    follow = mouts[1 + nf + ns + ng + nsm:]
+    rest = mouts[1 + nf + ns + ng + nsm:]
+    states_m = rest[-1:] if (rest and _has_do(case["flows"]) and (obs.get("uids") or {}).get("states_canon") is not None) else []
+    follow = rest[:len(rest) - len(states_m)]
     # compiler tie: parser output == compile(AST) == comp none (AST)
     for f, c, mc in zip(case["flows"], comps, obs["mcfgs"]):
         if c["compile"] != mc["elems"]:
@@ -2111,6 +2391,27 @@ def compare(case, obs, mouts):
             i = next((i for i, (a, b) in enumerate(zip(c["keys"], ak)) if a != b), min(len(c["keys"]), len(ak)))
             return (f"annotation pass: `_next_on_break` / `_next_on_continue` of element {i} of flow {f['name']}: "
                     f"model compileA {c['keys'][i:i+1]} parser {ak[i:i+1]}")
+    # uid tie: the Lean model hands out uids from a counter, and its theorems about calls and returns (call_subflow_uid_fresh,
+    # uids_pairwise_distinct, resume_unwinds_stack, next_step_is_flow_statement_with_do) rest on `UidsOK`: the uids of the
+    # flow states of every state are pairwise distinct.  Checked here on every state the real compute_next_state returned
+    # while replaying the history (uuid4 in the code as it is).
+    uw = obs.get("uids")
+    if uw and uw.get("dup"):
+        d = uw["dup"]
+        return (f"uid tie: the state after event {d['prefix']} holds several flow states with the SAME uid {d['uid']!r}: {d['flows']} "
+                f"(the model allocates fresh uids: call_subflow_uid_fresh / uids_pairwise_distinct; with equal uids the resume loop's "
+                f"lookup of `interrupted_by` can hit a COMPLETED older instance: call_site_uid_counterexample)")
+    # state tie: the flow states of the real State after every prefix == the model's (`replay`), up to the names of the uids
+    # (flow id, head, status, and WHICH flow state the `interrupted_by` lookup finds); the model's states satisfy UidsOK
+    # (uids_pairwise_distinct).  Not compared inside the region of the open finding (zombie flow states).
+    if states_m and not any(obs.get("zombie", [])):
+        for k, (a, b) in enumerate(zip(obs["uids"]["states_canon"], states_m[0]["res"])):
+            if a is None or b is None:
+                continue
+            if b.get("uids_ok") is not True:
+                return f"state tie: prefix {k}: the MODEL's state violates UidsOK (theorem uids_pairwise_distinct): {b}"
+            if a != b["flows"]:
+                return f"state tie: prefix {k}: flow states (flow, head, status, index of the interrupter found) impl {a} model {b['flows']}"
     # slide tie
     for s, m in zip(obs["slides"], slides):
         o = s["out"]
@@ -2395,6 +2696,16 @@ def signature(case, obs, msg):
         return "follow"
     if msg.startswith("generated structured source") or msg.startswith("parser produced"):
         return "parse"
+    if msg.startswith("uid tie"):
+        return "uid-tie"
+    if msg.startswith("state tie"):
+        try:
+            k = int(msg.split("prefix ")[1].split(":")[0])
+            if obs["zombie"][k]:
+                return "flow-finished-on-start-event"
+        except Exception:  # noqa
+            pass
+        return "state-tie"
     return None
 
 
@@ -2438,6 +2749,14 @@ def tags(case, obs):
         t.append("exc:" + next(d["exc"] for d in obs["used"] if "exc" in d))
     if obs.get("hangs"):
         t.append("hang-observed")
+    t += sorted(same_do_again_profile(case["flows"]))
+    uw = obs.get("uids") or {}
+    if uw.get("twin"):
+        t.append("state:completed+live-instance-of-same-flow")
+    if uw.get("max_flows", 0) >= 3:
+        t.append("state:flows>=3")
+    if uw.get("dangling"):
+        t.append("state:dangling-interrupted_by")
     for wd, idp in sorted(if_in_while_profile(case["flows"])):
         t.append("if-in-while:w%d-i%d" % (min(wd, 3), min(idp, 4)))
     if obs.get("if_in_loop"):
